@@ -52,12 +52,13 @@ type Frame struct {
 	args     []Val
 	stack    []*ssa.Function
 	recovers bool
+	unrolled int
 	entry    *State
 }
 
 func (f *Frame) clone() *Frame {
 	n := &Frame{fn: f.fn, env: make(map[ssa.Value]Val, len(f.env)), defers: append([]deferred(nil), f.defers...), prev: f.prev,
-		depth: f.depth, loopCut: make(map[*ssa.BasicBlock]bool, len(f.loopCut)), top: f.top, args: f.args, stack: f.stack, entry: f.entry}
+		depth: f.depth, loopCut: make(map[*ssa.BasicBlock]bool, len(f.loopCut)), top: f.top, args: f.args, stack: f.stack, entry: f.entry, unrolled: f.unrolled}
 	for k, v := range f.env {
 		n.env[k] = v
 	}
@@ -115,14 +116,18 @@ type Exec struct {
 	activeGhosts  []string
 	maxOps        int
 	callSites     map[string][]string
+	topFrame      *Frame
+	steps         int
+	stepBudget    int
 	platformHints map[string]*Term
+	intToFloat    map[string]*Term // float term -> the integer term it was converted from
 }
 
 func NewExec(prog *ssa.Program, lib *SpecLib, prop string) *Exec {
 	ex := &Exec{prog: prog, lib: lib, prop: prop, defs: map[string]*Def{}, fnInfo: map[*ssa.Function]*FnInfo{},
 		sentinels: map[*ssa.Global]*Term{}, sentinelText: map[string]string{}, constGlobals: map[*ssa.Global]Val{},
 		inlined: map[string]bool{}, havocked: map[string]bool{}, usedExtern: map[string]bool{}, warnings: map[string]bool{},
-		platformHints: map[string]*Term{}, callOrd: map[string]int{}, pathBudget: 20000, maxDepth: 6, pkgByName: map[string]*ssa.Package{}, effectsMemo: map[*ssa.Function]*Effects{}}
+		platformHints: map[string]*Term{}, intToFloat: map[string]*Term{}, callOrd: map[string]int{}, pathBudget: 20000, stepBudget: 3000000, maxDepth: 6, pkgByName: map[string]*ssa.Package{}, effectsMemo: map[*ssa.Function]*Effects{}}
 	for _, p := range prog.AllPackages() {
 		if _, dup := ex.pkgByName[p.Pkg.Name()]; !dup || strings.Contains(p.Pkg.Path(), "ARM-software") {
 			ex.pkgByName[p.Pkg.Name()] = p
@@ -422,6 +427,13 @@ func (ex *Exec) runBlock(fr *Frame, st *State, b *ssa.BasicBlock, idx int) []Out
 	}
 	for i := idx; i < len(b.Instrs); i++ {
 		ins := b.Instrs[i]
+		ex.steps++
+		if ex.steps > ex.stepBudget {
+			if ex.steps == ex.stepBudget+1 {
+				ex.errs = append(ex.errs, fmt.Sprintf("step budget exceeded while verifying %s (path explosion)", ex.curKey))
+			}
+			return nil
+		}
 		switch x := ins.(type) {
 		case *ssa.If:
 			c, _ := ex.val(fr, st, x.Cond).(*Term)
@@ -612,6 +624,16 @@ func (ex *Exec) loopInvariants(fn *ssa.Function, ord int) []*Clause {
 // loopHead implements the loop cut. Returns true when the path ends here.
 func (ex *Exec) loopHead(fr *Frame, st *State, h *ssa.BasicBlock, li *LoopInfo) bool {
 	invs := ex.loopInvariants(fr.fn, li.Ord)
+	if !fr.loopCut[h] && ex.exitTestDecided(fr, st, h) {
+		// the exit test is decided by constants on this path (e.g. a range over a
+		// variadic slice of known length): execute the iteration, no cut needed
+		fr.unrolled++
+		if fr.unrolled <= 200 {
+			return false
+		}
+		ex.errs = append(ex.errs, fmt.Sprintf("loop #%d of %s unrolled more than 200 times: needs an invariant", li.Ord, funcKey(fr.fn)))
+		return true
+	}
 	back := fr.prev != nil && li.Blocks[fr.prev] && fr.loopCut[h]
 	env := ex.localEnv(fr, st)
 	if back {
@@ -642,6 +664,31 @@ func (ex *Exec) loopHead(fr *Frame, st *State, h *ssa.BasicBlock, li *LoopInfo) 
 	ex.checkDecreases(fr, st, li, true)
 	st.Tracef("%s: loop #%d cut", ex.pos(loopPos(h)), li.Ord)
 	return false
+}
+
+// exitTestDecided executes the header block on a scratch copy and reports
+// whether its terminating condition folds to a constant.
+func (ex *Exec) exitTestDecided(fr *Frame, st *State, h *ssa.BasicBlock) bool {
+	if len(h.Instrs) == 0 {
+		return false
+	}
+	iff, ok := h.Instrs[len(h.Instrs)-1].(*ssa.If)
+	if !ok {
+		return false
+	}
+	fr2, st2 := fr.clone(), st.Clone()
+	nobl := len(ex.obls)
+	for _, ins := range h.Instrs[:len(h.Instrs)-1] {
+		switch ins.(type) {
+		case ssa.CallInstruction, *ssa.RunDefers, *ssa.Select, *ssa.Panic, *ssa.Return:
+			ex.obls = ex.obls[:nobl]
+			return false
+		}
+		ex.step(fr2, st2, ins)
+	}
+	ex.obls = ex.obls[:nobl]
+	c, _ := ex.val(fr2, st2, iff.Cond).(*Term)
+	return c != nil && (c.S == "true" || c.S == "false")
 }
 
 func (ex *Exec) checkDecreases(fr *Frame, st *State, li *LoopInfo, entry bool) {
@@ -774,7 +821,7 @@ func (ex *Exec) fnEffects(fn *ssa.Function) *Effects {
 		return e
 	}
 	if !isRepoFunc(fn) || len(fn.Blocks) == 0 {
-		e.Heap = true
+		e.Heap = !ex.knownPure(funcKey(fn))
 		return e
 	}
 	for _, b := range fn.Blocks {
